@@ -189,10 +189,10 @@ func init() {
 		ID: "C18",
 		Rule: "v1 (package lib): list-mode (a, b) pairs incl. keys that look like integers (kept by v1), keys needing pointer escaping, arrays growing (-1 append rendered as '/-'), shrinking and changing in place; merge-mode pairs that differ, null-free or with nulls as array elements only; " +
 			"RenderPatch is evaluated by the harness's RFC 6902 evaluator and RenderMerge by the RFC 7386 pseudocode on a (must give b); both texts are read back with the v1 readers and applied to a (must give b); non-trivial = non-empty diff; distinct = distinct (a, b)",
-		Floors: map[string]int{"rfc6902_gives_b": 20000, "patch_read_back_gives_b": 20000, "rfc7386_gives_b": 10000, "merge_read_back_gives_b": 10000, "append_token_rendered": 3000, "integer_like_keys": 3000, "merge_patch_deletes": 2000, "b_has_null_array_elements": 2000, "long_array_pairs": 2000},
+		Floors: map[string]int{"rfc6902_gives_b": 20000, "patch_read_back_gives_b": 20000, "rfc7386_gives_b": 10000, "merge_read_back_gives_b": 10000, "append_token_rendered": 3000, "integer_like_keys": 3000, "merge_patch_deletes": 2000, "b_has_null_array_elements": 2000, "long_array_pairs": 2000, "refused_dash_key": 50},
 		Assumptions: []string{"same RFC 6902 root-replacement reading as C09 (DESIGN 5.9)", "merge-mode documents differ and carry no null as an object member value (RFC 7386 cannot express one); null elements of arrays are used"},
 	}
-	numKeys := gen.PHostile.With(func(p *gen.Profile) { p.Keys = append(append([]string{}, gen.KeysHostile...), "0", "1", "2", "12", "01", "-1", "+1", "1e3") })
+	numKeys := gen.PHostile.With(func(p *gen.Profile) { p.Keys = append(append([]string{}, gen.KeysHostile...), "0", "1", "2", "12", "01", "-1", "+1", "1e3", "-") })
 	profs := []gen.Profile{gen.PDefault, gen.PTiny, gen.PDeep, gen.PNulls, gen.PHostile, numKeys, gen.PNumbers}
 	p.Strata = append(p.Strata, mon.Stratum{
 		Name: "patch/random-pairs",
